@@ -1,5 +1,8 @@
-(* Properties_C19.v — enumerated values cycle through their declared order. *)
-From PE2 Require Import Enums Lemmas_Enums.
+(* Properties_C19.v — enumerated values keep their type and cycle through their declared order.
+   The arithmetic is proved for every INTEGER; "a value of one enumerated type can never be stored in a variable of a different
+   enumerated type" is proved over the whole evaluator as a heap invariant (program logic of Lemmas_ConstLogic.v: the payload of every
+   cell carries the name of the cell's declared type, through every store channel including record and array copies). *)
+From PE2 Require Import Eval Run Enums Lemmas_Enums Lemmas_ConstLogic Lemmas_ConstThm.
 Local Open Scope Z_scope.
 
 (* position + k modulo the number of names, for every INTEGER k and every intermediate sign;
@@ -16,3 +19,21 @@ Print Assumptions C19_result_is_a_position.
 Example C19_wraps_backwards : enum_arith false 0 1 3 = 2 /\ enum_arith false 0 2 3 = 1 /\
                               enum_arith true 2 (-9223372036854775808) 3 = 0.
 Proof. vm_compute. repeat split; reflexivity. Qed.
+
+(* whatever a program does, a variable that holds an enumerated value holds one of ITS OWN type: the variable's declared type is
+   enumerated and has the name the value carries.  (Inv holds in the initial state of every run and is kept by every block:
+   C05_invariant_holds_initially, C05_invariant_is_kept.) *)
+Theorem C19_enum_variables_hold_their_own_type : forall ped repl lim fuel bl c s id cl tn i, Inv s ->
+  nm_get id (s_cells (snd (run_block ped repl lim fuel bl c s))) = Some cl -> c_val cl = PEnum tn i ->
+  dk (c_type cl) = KEnum /\ dname (c_type cl) = Some tn.
+Proof. exact enum_variables_hold_their_own_type. Qed.
+Print Assumptions C19_enum_variables_hold_their_own_type.
+
+(* and an expression of enumerated type yields a value of the type its result says *)
+Theorem C19_enum_results_carry_their_type : forall ped repl lim fuel n c s r s' tn i, Inv s ->
+  ev_eval (evs_at ped repl lim fuel) n c s = (Ok r, s') -> r_val r = Some (PEnum tn i) -> dk (r_type r) = KEnum /\ dname (r_type r) = Some tn.
+Proof.
+  intros ped repl lim fuel n c s r s' tn i HI E Ev. destruct (results_are_of_their_type ped repl lim fuel n c s r s' _ HI E Ev) as [Hk [Hn _]].
+  split; [symmetry; exact Hk|apply Hn; reflexivity].
+Qed.
+Print Assumptions C19_enum_results_carry_their_type.
